@@ -645,3 +645,6 @@ var specRing = pbt.Register(&pbt.Spec[RingCase]{
 })
 
 func TestC06Ring(t *testing.T) { pbt.Check(t, specRing) }
+
+// native fuzz target (engine E6, thorough tier)
+func FuzzC06Ring(f *testing.F) { pbt.Fuzz(f, specRing) }
